@@ -287,3 +287,29 @@ Proof.
     constructor; [|exact Hpairs].
     apply Forall_forall. intros y Hy j Hj [Hd Hyj]. exact (Hhead j Hj Hd y Hy Hyj).
 Qed.
+
+(* the converse of add_ranges_spec: a file whose ranges lie inside the alignment, address only free sites and
+   are pairwise disjoint is accepted *)
+Theorem add_ranges_complete : forall l ps,
+  ps_wf ps ->
+  (forall x, In x l -> let '(s, e, m) := snd x in 0 <= s /\ e < ps_len ps /\ 0 < m) ->
+  (forall x j, In x l -> 0 <= j -> addressed_by x j -> nth (Z.to_nat j) (ps_parts ps) (-1) = -1) ->
+  ForallOrdPairs (fun x y => forall j, 0 <= j -> ~ (addressed_by x j /\ addressed_by y j)) l ->
+  snd (add_ranges ps l) = true.
+Proof.
+  induction l as [|[n [[s e] m]] t IH]; intros ps Hwf Hb Hfree Hpairs; [reflexivity|].
+  cbn [add_ranges].
+  destruct (add_range ps n s e m) as [ps1 ok] eqn:HA.
+  destruct (add_range_spec _ _ _ _ _ _ _ Hwf HA) as [_ Hgood].
+  pose proof (Hb (n, (s, e, m)) (or_introl eq_refl)) as Hb0. cbn in Hb0.
+  destruct (Hgood Hb0) as [Hwf1 [Hlen1 [Hok Hfail]]].
+  destruct ok.
+  - destruct (Hok eq_refl) as [_ Hna].
+    inversion Hpairs as [|? ? Hhead Htail]; subst.
+    apply IH; [exact Hwf1 | | | exact Htail].
+    + intros x Hx. rewrite Hlen1. apply Hb. right; exact Hx.
+    + intros x j Hx Hj Hd. rewrite Hna; [apply (Hfree x j (or_intror Hx) Hj Hd) | exact Hj |].
+      intros Hd0. rewrite Forall_forall in Hhead. exact (Hhead x Hx j Hj (conj Hd0 Hd)).
+  - exfalso. destruct (Hfail eq_refl) as [j [Hd Hocc]]. apply Hocc.
+    apply (Hfree (n, (s, e, m)) j (or_introl eq_refl)); [destruct Hd as [[? ?] _]; lia | exact Hd].
+Qed.
